@@ -59,6 +59,7 @@ def main(argv=None):
     ap.add_argument("-v", "--verbose", action="store_true")
     a = ap.parse_args(argv)
     os.environ.setdefault("PYTHONHASHSEED", "0")
+    os.environ["PYVC_TIER"] = a.tier  # inherited by the worker processes: units widen their element counts
     sys.path.insert(0, ROOT) if ROOT not in sys.path else None
     from . import core, runner
     from .registry import NATIVE, UNITS
